@@ -10,13 +10,13 @@ MANIFEST = {
     "C13": {
         "technique": "Lean 4 proof (invariants of a model of the Server client write path over all histories of writes, send outcomes, suspend/resume and peer reads) + differential correspondence model vs real Server on a socket pair with interposed send()",
         "text": "Theorems over all operation histories of the Lean model of ClientImpl::write/read/suspend/resume and the write-ready branch of Server::run (stream_exact, postponed_is_backlog, onWrite_iff_drained, interest_inv, suspended_no_read; suspended_no_read_batch for several clients with events pending in one poll batch); the model is tied to the current Server.cpp/Socket.cpp on every run by executing identical op lines on a real Server whose send() is interposed with scripted outcomes (exhaustive fault sequences + random histories, ASan/UBSan), and by an independent Python byte-stream reference evaluated on the implementation's observations (received stream, return/postponed values, send-buffer size, callback log, intercepted sends, epoll interest).",
-        "note": "Trusted: Lean kernel + the three standard axioms; hand translation of Server.cpp into the model (validated by the correspondence run, not proved); the kernel delivers bytes accepted by send() in order (checked by the harness on a socket pair) and reports a socket pair with free buffer space writable; Buffer behaves as a byte queue (C08); the byte-stream theorems use the one-client model (one poll round per `ready` op); the clause about suspended clients is additionally proved over the event-loop model of C14 with any number of clients and the poll's pending batch (PropsC13Batch: set_purges_pending_batch, suspended_has_no_pending_read, suspended_no_read_batch, onRead_only_from_poll) and run on the real Server in a second stream (2..5 clients fetched in one epoll_wait batch, suspend/resume from other clients' / timers' / listeners' callbacks; monitor: no onRead between suspend and resume); peer hang-up and read(…,0) are outside the C13 model.",
+        "note": "Trusted: Lean kernel + the three standard axioms; hand translation of Server.cpp into the model (validated by the correspondence run, not proved); the kernel delivers bytes accepted by send() in order (checked by the harness on a socket pair) and reports a socket pair with free buffer space writable; Buffer behaves as a byte queue (C08); the byte-stream theorems use the one-client model (one poll round per `ready` op); the clause about suspended clients is additionally proved over the event-loop model of C14 with any number of clients and the poll's pending batch (PropsC13Batch: set_purges_pending_batch, suspended_has_no_pending_read, suspended_no_read_batch, onRead_only_from_poll) and run on the real Server in a second stream (2..5 clients fetched in one epoll_wait batch, suspend/resume from other clients' / timers' / listeners' callbacks; monitor: no onRead between suspend and resume); peer hang-up and read(…,0) are outside the C13 model; the C13 model assumes that onClosed removes the client (as the harness callback does) — peer_stream_prefix depends on it (a kept client that writes again after a failed write-ready send would leave a gap).",
         "design_ref": "DESIGN.md 3/C13",
     },
     "C14": {
         "technique": "Lean 4 proof (invariants of a small-step transition-system model of Server::run + Socket::Poll over all histories, callback scripts and kernel answers) + differential correspondence model vs real Server under virtual time with interposed clock_gettime/epoll_wait/epoll_ctl/send",
-        "text": "36 theorems over ALL histories of the Lean model (API calls, arbitrary callback scripts that create/remove timers, clients, listeners, establishers also from inside callbacks, any epoll_wait answer in any order, any time advance, any send outcome): no_fault (no null/dangling pointer use), timer_queue_exact, timer_not_early, timer_order, timer_once_per_interval, poll_timeout_is_next_due, callbacks_only_to_live, removed_never_called (all four object kinds, also with events pending), dispatch_only_registered_kinds, client_interest, suspended_client_no_onRead, failed-I/O => onClosed, run_returns_only_on_interrupt, interrupt_returns_run, interrupt_never_lost (interrupt() of other threads as two interleaved moves). The model is tied to the current Server.cpp/Socket.cpp on every run: identical op lines are executed on a real Server (socket pairs, loop-back listeners and establishers, virtual clock, epoll_wait answered from the really-ready set permuted/truncated by the schedule, callback scripts) and on the compiled model; an independent Python reference timer scheduler predicts pure timer programs exactly and a monitor evaluates removed_never_called / timer_not_early / timer_order / timeliness / live-object sets directly on the implementation's callback log.",
-        "note": "Trusted: Lean kernel + the three standard axioms; hand translation of run()/Poll into the model (validated by the correspondence run, not proved). Modelled rather than verified: MultiMap as a key-sorted FIFO multimap with lower-bound find (C01 incl. the repair of D1 — without it the check reports D19 with a 2-timer failing input), PoolList/HashSet/HashMap as reference containers (C02/C03), kernel epoll/eventfd/socket readiness (assumption; the harness prints ENV-FAIL when the kernel deviates), interrupt() from another thread as two moves (flag under the mutex, then event-descriptor write) interleaved arbitrarily with run() in the theorems — the correspondence run exercises interrupt() from callbacks, between runs, from inside epoll_wait and (op `runmt`; timers-only programs and programs with idle registered sockets) from a real second thread racing with run(); weak-memory effects on the unlocked read of _interrupted are not modelled, host-name resolving establishers and Server::clear() not modelled, failing connects are injected through an interposed getsockopt(SO_ERROR) (a real refused loop-back connect is not deterministic), peers of accepted/connected TCP clients never close in the correspondence runs. OPEN (not proved): ready_eventually_dispatched (liveness under kernel fairness) and real-time bounds; the model proves only that run() never sleeps past a due timer. The model mirrors the repaired code (fixes/server/01, 02).",
+        "text": "45 theorems over ALL histories of the Lean model (API calls, arbitrary callback scripts that create and remove timers, socket-pair clients, listeners and establishers also from inside callbacks (Act.mkTimer/mkPair/mkListener/mkEst, rm*), any epoll_wait answer in any order, any time advance, any send outcome): no_fault (no null/dangling pointer use), timer_queue_exact, timer_not_early, timer_order, timer_once_per_interval, timer_intervals_positive, activation_moves_due_forward, poll_timeout_is_next_due, callbacks_only_to_live, removed_never_called (all four object kinds, also with events pending), dispatch_only_registered_kinds, client_interest, suspended_client_no_onRead, failed_io_then_onClosed at history level (a queued client gets onClosed or is deleted before run() polls again; membership in the closing list persists across all calls and scripts), run_returns_only_on_interrupt, interrupt_returns_run, interrupt_never_lost (interrupt() of other threads as two interleaved moves). The model is tied to the current Server.cpp/Socket.cpp on every run: identical op lines are executed on a real Server (socket pairs, loop-back listeners and establishers, virtual clock, epoll_wait answered from the really-ready set permuted/truncated by the schedule, callback scripts) and on the compiled model; an independent Python reference timer scheduler predicts pure timer programs exactly and a monitor evaluates removed_never_called / timer_not_early / timer_order / timeliness / live-object sets directly on the implementation's callback log.",
+        "note": "Trusted: Lean kernel + the three standard axioms; hand translation of run()/Poll into the model (validated by the correspondence run, not proved). Modelled rather than verified: MultiMap as a key-sorted FIFO multimap with lower-bound find (C01 incl. the repair of D1 — without it the check reports D19 with a 2-timer failing input), PoolList/HashSet/HashMap as reference containers (C02/C03), kernel epoll/eventfd/socket readiness (assumption; the harness prints ENV-FAIL when the kernel deviates), interrupt() from another thread as two moves (flag under the mutex, then event-descriptor write) interleaved arbitrarily with run() in the theorems — the correspondence run exercises interrupt() from callbacks, between runs, from inside epoll_wait and (op `runmt`; timers-only programs and programs with idle registered sockets) from a real second thread racing with run(); weak-memory effects on the unlocked read of _interrupted are not modelled, host-name resolving establishers and Server::clear() not modelled, failing connects are injected through an interposed getsockopt(SO_ERROR) (a real refused loop-back connect is not deterministic), peers of accepted/connected TCP clients never close in the correspondence runs. OPEN (not proved): ready_eventually_dispatched (liveness under kernel fairness) and real-time bounds; the model proves only that run() never sleeps past a due timer. Top-level API moves may interleave with steps while run() is active: an over-approximation for the safety theorems, not a claim that remove() is thread-safe. The model mirrors the repaired code (fixes/server/01, 02, 03: Server::time raises an interval below 1 ms to 1 ms — with interval 0 the timer loop never ended and interrupt() could not make run() return).",
         "design_ref": "DESIGN.md 3/C14",
     },
 }
@@ -277,7 +277,7 @@ def check_c13(ctx):
         "the operating system delivers the bytes accepted by successive send() calls to the peer in order, without loss or duplication (checked on the socket pair by the harness: received stream == bytes the intercepted sends accepted)",
         "a socket pair with free buffer space is reported writable by epoll; it is reported readable iff unread peer data is queued (the harness prints ENV-FAIL otherwise)",
         "Buffer is a faithful byte queue (property C08); allocation never fails",
-        "the user's onClosed callback removes the client (server.remove), as the harness callback does",
+        "the user's onClosed callback removes the client (server.remove), as the harness callback does — peer_stream_prefix (after a close the peer has seen a prefix of the accepted data) depends on it: a callback that keeps a client whose write-ready send failed and writes again would make the peer see the stream with a gap",
     ]
     proof_ok = C.proof_stage(ctx, PROPS["C13"], [DRIVER], leanchecker=(ctx.tier == "thorough"))
     harness = build(ctx)
@@ -978,6 +978,7 @@ def check_c14(ctx):
         ctx.cov["env_fail_lines"] = st.envfail
         ctx.cov["runs_interrupted_by_a_real_second_thread"] = getattr(st, "mt", 0)
         ctx.cov["open_statements"] = [
+            "interrupt_eventually_returns (composition over steps): proved are interrupt_never_lost, interrupt_signals_eventfd, interrupt_returns_run (the step at an empty batch with the event descriptor reported), timer_intervals_positive + activation_moves_due_forward (the timer loop ends), failed_io_then_onClosed/poll_only_after_closing (the closing loop is left only when empty) and poll_step_drains_batch (the batch drains); the well-founded composition of these into 'run() returns within a bound' (which also needs: no callback script re-queues a closed client forever) is not proved",
             "ready_eventually_dispatched: under a fair kernel every registered ready socket is eventually dispatched (liveness; only the safety half is proved: buffered_events_are_registered, dispatch_only_registered_kinds)",
             "interrupt() racing with run(): proved for the two-move model (flag, then event descriptor) under sequential consistency; exercised with a real second thread (op runmt) in timers-only programs and with idle clients/listeners registered",
             "resolver-based establishers (connect by host name) are not modelled; a failing connect is injected through the interposed getsockopt(SO_ERROR)",
